@@ -551,6 +551,65 @@ def build_export(spec):
     return dat, geo, {'atmos_volume': spec['atmos_volume'], 'eos': spec['eos_arg'], 'mesh_coords': 'xyz'}
 
 
+def qz(v):
+    return '%d/%d' % float(v).as_integer_ratio()
+
+
+def source_fields(ab, ctx3):
+    """wire fields of the full-source op: numeric attributes of every generator object (heap order), tracer flag,
+    number of equations, MOP(12)"""
+    def one(g):
+        return '~'.join([qz(g.gx), qz(g.ex), qz(g.fg), 'N' if g.hg is None else qz(g.hg),
+                         '|'.join(qz(t) for t in g.time), '|'.join(qz(t) for t in g.rate), '|'.join(qz(t) for t in g.enthalpy)])
+    tracer, numeq, mop12 = ctx3
+    return [','.join(one(g) for g in ab.objs), '1' if tracer else '0', '%d' % numeq, '%d' % mop12]
+
+
+def canon_json(v):
+    """JSON value -> nested python with exact fractions (ints and floats alike)"""
+    from fractions import Fraction
+    import numpy as np
+    if isinstance(v, dict): return {k: canon_json(x) for k, x in v.items()}
+    if isinstance(v, (list, tuple, np.ndarray)): return [canon_json(x) for x in v]
+    if v is None or isinstance(v, str): return v
+    if isinstance(v, (bool, np.bool_)): return bool(v)
+    return Fraction(float(v)) if isinstance(v, (float, np.floating)) else Fraction(int(v))
+
+
+def parse_model_json(text):
+    """the driver's rendering of a list of sources -> the same nested python"""
+    from fractions import Fraction
+    pos = [0]
+    def val():
+        c = text[pos[0]]
+        if c == '{':
+            pos[0] += 1; d = {}
+            while text[pos[0]] != '}':
+                j = text.index('=', pos[0]); k = bytes.fromhex(text[pos[0]:j]).decode('latin-1'); pos[0] = j + 1
+                d[k] = val()
+                if text[pos[0]] == ',': pos[0] += 1
+            pos[0] += 1; return d
+        if c == '[':
+            pos[0] += 1; l = []
+            while text[pos[0]] != ']':
+                l.append(val())
+                if text[pos[0]] == ',': pos[0] += 1
+            pos[0] += 1; return l
+        j = pos[0] + 1
+        while j < len(text) and text[j] not in ',]};': j += 1
+        tok = text[pos[0]:j]; pos[0] = j
+        if tok == 'N': return None
+        if tok[0] == 'q': n, d = tok[1:].split('/'); return Fraction(int(n), int(d))
+        if tok[0] == 'i': return Fraction(int(tok[1:]))
+        if tok[0] == 's': return bytes.fromhex(tok[1:]).decode('latin-1')
+        raise ValueError('token %r' % tok)
+    out = []
+    while pos[0] < len(text):
+        out.append(val())
+        if pos[0] < len(text) and text[pos[0]] == ';': pos[0] += 1
+    return out
+
+
 def export_fields(dat, geo, spec):
     """the six extra wire fields of the export operations"""
     import numpy as np
@@ -598,6 +657,8 @@ def run_export(dat, geo, kw):
         res['eos'] = 'OK\t%s\t%d' % (hx(j['eos']['name']), 1 if 'tracer' in j else 0)
         res['rocks'] = cells_line(j['rock']['types'])
         res['srcs'] = src_line(j.get('source', []))
+        res['src_full'] = canon_json(j.get('source', []))
+        res['src_ctx'] = ('tracer' in j, {'w': 1, 'we': 2, 'wce': 3, 'wae': 3}[j['eos']['name']], int(dat.parameter['option'][12]))
         res['init'] = init_line(j.get('initial', {}), nund)
         res['bdy'] = bdy_pairs(j.get('boundaries', []))
         res['json'] = j
@@ -613,9 +674,11 @@ def run_export(dat, geo, kw):
         res['rocks'] = cells_line(rj['rock']['types'])
     except Exception as e: res['rocks'] = 'RAISE ' + exn_name(e)
     try:
+        res['src_ctx'] = (bool(tracer), {'w': 1, 'we': 2, 'wce': 3, 'wae': 3}[eosname], int(dat.parameter['option'][12]))
         with quiet(): gj = dat.generators_json(geo, eosname, tracer)
         res['srcs'] = src_line(gj.get('source', []))
-    except Exception as e: res['srcs'] = 'RAISE ' + exn_name(e)
+        res['src_full'] = canon_json(gj.get('source', []))
+    except Exception as e: res['srcs'] = 'RAISE ' + exn_name(e); res['src_full'] = 'RAISE ' + exn_name(e)
     # initial conditions and boundaries: only a KeyError is the bookkeeping's own; anything else (short primaries,
     # missing centres, ...) leaves the piece uncompared
     try:
